@@ -11,10 +11,12 @@ KVIEW = View(ignore_calls=('print', 'dprint'), ignore_targets=('*.__cause__', '*
 SPECS = {}
 
 
-def spec(cls, meth, own=False, ctx=None, region=None, what='', view=None, opts=None):
+def spec(cls, meth, own=False, ctx=None, region=None, what='', view=None, opts=None, inherit=False):
+    """inherit=True: the method as *resolved* on the class (an inherited definition is compared too), for
+    obligations of the kind 'this subclass must not keep the base behaviour'"""
     def deco(src):
         SPECS[(cls, meth)] = dict(cls=cls, meth=meth, src=src, own=own, ctx=ctx, region=region, what=what,
-                                  view=view, opts=opts)
+                                  view=view, opts=opts, inherit=inherit)
         return src
     return deco
 
@@ -60,7 +62,8 @@ def step(self):
 ''')
 
 spec('Environment', 'run', what='numeric until: refuse at <= now, fresh URGENT sentinel at at-now; event until: '
-                                'value at once when processed, otherwise stop only after all its waiters ran')('''
+                                'value at once when processed, otherwise stop only after all its waiters ran; the end of '
+                                'the agenda is read from the agenda, so an exception escaping step() is never mistaken for it')('''
 def run(self, until=None):
     stop_event = None
     if until is not None:
@@ -81,16 +84,15 @@ def run(self, until=None):
         else:
             stop_event = until
     try:
-        while True:
+        while self._queue:
             self.step()
             if stop_event is not None and stop_event.callbacks is None:
                 StopSimulation.callback(stop_event)
     except StopSimulation as exc:
         return exc.args[0]
-    except EmptySchedule:
-        if until is not None:
-            assert not until.triggered
-            raise RuntimeError()
+    if until is not None:
+        assert not until.triggered
+        raise RuntimeError()
     return None
 ''')
 
@@ -191,6 +193,13 @@ def __init__(self, env, generator):
     self._generator = generator
     self._target = Initialize(env, self)
 ''')
+
+for _m, _sig in (('succeed', 'self, value=None'), ('fail', 'self, exception'), ('trigger', 'self, event')):
+    spec('Process', _m, inherit=True, what='a process event is triggered by its own termination only: a hand-made '
+                                           'trigger is refused before any write (else the termination is a second trigger)')('''
+def %s(%s):
+    raise RuntimeError()
+''' % (_m, _sig))
 
 spec('Process', 'interrupt', what='interrupt creates exactly one Interruption for this process')('''
 def interrupt(self, cause=None):
@@ -460,4 +469,4 @@ def run_tables(ctx, prefix, keys):
     for (c, m) in keys:
         d = SPECS[(c, m)]
         ctx.table('%s.T.%s.%s' % (prefix, c, m), c, m, d['src'], d['view'] or KVIEW, d['opts'],
-                  ctx_cls=d['ctx'], region=d['region'], own=True, what=d['what'] or '%s.%s as the property requires' % (c, m))
+                  ctx_cls=d['ctx'], region=d['region'], own=not d['inherit'], what=d['what'] or '%s.%s as the property requires' % (c, m))
